@@ -1010,7 +1010,7 @@ EXPLANATION = ("Representation invariant wf (13 clauses) + whole-view postcondit
                "__toggle_sign/__is_negative.")
 MANIFEST = {
     "category": "proof",
-    "text": "Every method of the real AliasRelation class is verified against a representation invariant (13 clauses) and whole-view postconditions by symbolic execution of the source and z3; unbounded in history length and universe size, so the property's history quantifier is decided by induction over operations rather than by sampling sequences. A bounded exhaustive replay on the real class (labelled bounded) runs beside it and supplies concrete failing histories.",
+    "text": "Every method of the real AliasRelation class is verified against a representation invariant (13 clauses) and whole-view postconditions by symbolic execution of the source and z3; unbounded in history length and universe size, so the property's history quantifier is decided by induction over operations rather than by sampling sequences. A bounded exhaustive replay on the real class (labelled bounded) runs beside it and supplies concrete failing histories. Obligations that every solver leaves unknown are re-instantiated over 4- and 6-element universes to obtain a counter-model (refutation only).",
     "note": "Trusted: the pyvc VC generator and its heap/set/dict model, z3/cvc5, validity of names (non-empty, at most one leading '-') and the hypothesis that add never relates a variable to its own negation; generator __iter__ evaluated eagerly; termination not proved.",
     "technique": "contract-based deductive verification: sidecar contracts + loop invariants on the real source, VCs by symbolic execution, discharged by z3/cvc5",
 }
